@@ -8,6 +8,9 @@ CLAIMED = {
     "C05": ("Lean 4 theorems over all op sequences / buffer sizes / socket behaviours of a statement-level model of destination/bufwriter.go and Conn.Write + exact differential validation against the real Writer, Pickle and a real Destination on loopback",
             "proof: Crng.Props.C05.stream_invariant, socket_prefix, healthy_stream, healthy_lines, pickle_frame (+ Crng.Pk.unpickle_pickle). Correspondence: real destination.Writer under scripted full/short/failing sockets (nn, err, Buffered, socket bytes after every op), destination.Pickle bytes, and a real Destination -> loopback endpoint (iobuf from 1 byte, connbuf, flush 1..50 ms, lines up to 3x iobuf) byte-identical to the model; model-free monitors check order/once/newline/length-prefix and drop accounting.",
             "trusted: Lean kernel; harness+driver plumbing; kernel TCP delivers what was written; the interleaving of HandleData's select is explored by timing only (the theorem covers every interleaving of writes and flushes of the model).", "§5 C05"),
+    "C10": ("Lean 4 invariant proof over all histories of points and ticks of a model of aggregator.AddOrCreate/Flush (generic processor) + differential validation of the executable aggregator model (ten processors, %f) against aggregator.NewMocked",
+            "proof: Crng.Props.C10.emit_once, emit_ascending, late_is_counted (every rule, every history under a non-decreasing clock), carried to the executable model by step_eq/emitted_eq. Correspondence: boundary-aimed histories (on/around quantized == now-wait, out-of-order, late) x ten functions x intervals/waits produce identical output lines and too-old counts on the real aggregator (injected clock/tick, Snapshot barrier) and the model; monitor: no bucket twice, ascending, count conservation.",
+            "trusted: Lean kernel; harness+driver plumbing; Go float arithmetic and sort; emit_value (the numeric formulas) is validated by the differential run, not proved; cache and capture-group expansion are covered under C03.", "§5 C10, App. D"),
     "C08": ("Lean 4 theorem over all histories and crash points of a byte-level model of nsqd/diskqueue.go + exact differential validation of the model at every crash hook",
             "proof: Crng.Props.C08.crash_recovery (kernel-checked, all histories x all crash points x all segment/sync settings). The tie to the code is a correspondence check: at every filesystem mutation of the real queue (verif hook) the directory bytes and the recovered messages equal the model's; a model-free monitor checks the property statement on every real recovery.",
             "trusted: Lean kernel; harness+driver plumbing; crash model = process death between filesystem operations (completed operations are durable, nothing torn); filesystem calls succeed until the crash; no second crash during recovery. bufio/os behaviour of Go is modelled.", "§5 C08, App. B"),
